@@ -75,7 +75,8 @@ def gen_teardown(rnd):
     ev = []
     if rnd.random() < 0.3:
         ev = [(rnd.randrange(0, 3), rnd.choice([('connclose', 320), ('drop',)]))]
-    return dict(nchan=nchan, threads=threads, events=ev, heartbeat=rnd.choice([0, 60]))
+    return dict(nchan=nchan, threads=threads, events=ev, heartbeat=rnd.choice([0, 60]),
+                slow_closeok=rnd.choice([0, 0, 0.3, 0.6]))
 
 
 class Driver(concdrv.ConcMixin):
